@@ -5,7 +5,7 @@ from ..repo import AnalysisError
 from ..report import Ob, RuleSpec
 from ..astutil import (src, guards, flat_guards, calls_in, call_name, kwarg, const_value,
                        iter_own_nodes, ancestors, is_within, always_leaves)
-from ..cfg import cfg_of, Prov
+from ..cfg import cfg_of, Prov, resolve_local
 from ..paths import conj, rows, row_str
 from .. import variants as V
 
@@ -463,6 +463,14 @@ def r5_counters(repo):
         lp = loops[0]
         bname = src(calls_res[0].args[3])
         range_ok = src(lp.iter) == "range(%s)" % bname
+        if not range_ok:
+            # ... or over a list built with exactly one element per program of the batch: [.. for _ in range(batches)]
+            it = lp.iter
+            if isinstance(it, ast.Call) and call_name(it) == "enumerate" and it.args:
+                it = it.args[0]
+            it = resolve_local(fn, it, lp)
+            range_ok = isinstance(it, ast.ListComp) and len(it.generators) == 1 and not it.generators[0].ifs and \
+                src(it.generators[0].iter) == "range(%s)" % bname
         appends = [c for c in calls_in(lp) if call_name(c) == "append"]
         one_per_iter = len(appends) == 1 and not flat_guards(appends[0], stop=lp) and \
             not any(isinstance(n, (ast.Continue, ast.Break)) for n in iter_own_nodes(lp))
